@@ -2,7 +2,7 @@
 resolved program (ProgramDdv) are those of its command, of every stdin part and of every transformation -- none is
 dropped (seeded change C03-s7: the stdin string sources' validators lost by a copy/paste slip => a missing home file
 given as stdin of a program is detected only when the program is run)."""
-from pyvc.api import Module, Interface, Method, Iface, Inst, ListOf, Any_
+from pyvc.api import Module, Interface, Method, Iface, Inst, ListOf, Any_, Int
 from contracts.common import forall_range, exists_range
 
 from exactly_lib.type_val_deps.types.program.ddv.program import ProgramDdv
@@ -46,6 +46,75 @@ M.contract('exactly_lib.type_val_deps.types.program.ddv.program:ProgramDdv.__ini
                'parts stored': lambda self, command, stdin, transformations:
                self._command is command and self._stdin is stdin and self._transformations is transformations,
            },
+           raises_only=())
+
+
+# ------------------------------------------------------------------------------ symbol usages of the action to check
+# "Symbols are validated before anything is executed" needs every actor to REPORT the references of everything it
+# resolves when the action is run (the file-interpreter actor: contracts/C10_process.py `_Actor.parse`, seeded change
+# C03-s8).  The other actors build their ActionToCheck from parts:
+from pyvc.api import Str, Bool  # noqa: E402
+from exactly_lib.impls.actors.util.actor_from_parts import parts as actor_parts  # noqa: E402
+from exactly_lib.impls.actors.source_interpreter import parser as src_interpreter_parser  # noqa: E402
+from exactly_lib.impls.actors.program import executable_object  # noqa: E402
+
+
+class HasReferencesI(Interface):
+    """a CommandSdv / StringSdv / ProgramSdv: its symbol references"""
+    by_id = True
+    attrs = {'references': ListOf(Any_)}
+
+
+class SymbolUserI(Interface):
+    """the object to execute of an actor built from parts"""
+    methods = {'symbol_usages': Method(returns=ListOf(Any_), event='object-to-execute.symbol_usages')}
+
+
+def _concat2(xs, a, b, j):
+    return len(xs) == len(a) + len(b) \
+        and ((not (0 <= j < len(a))) or xs[j] is a[j]) \
+        and ((not (0 <= j < len(b))) or xs[len(a) + j] is b[j])
+
+
+M.contract('exactly_lib.impls.actors.source_interpreter.parser:InterpreterAndSourceInfo.__init__',
+           params=dict(self=Inst(src_interpreter_parser.InterpreterAndSourceInfo), interpreter=Iface(HasReferencesI),
+                       source=Iface(HasReferencesI)),
+           ghosts=dict(j=Int),
+           ensures={'symbol usages: the references of the interpreter and of the source': lambda self, interpreter, source, j:
+                    _concat2(self._symbol_usages, interpreter.references, source.references, j)
+                    and self.interpreter is interpreter and self.source is source},
+           raises_only=())
+
+M.contract('exactly_lib.impls.actors.source_interpreter.parser:InterpreterAndSourceInfo.symbol_usages',
+           params=dict(self=Inst(src_interpreter_parser.InterpreterAndSourceInfo, interpreter=Any_, source=Any_,
+                                 _symbol_usages=ListOf(Any_))),
+           returns=ListOf(Any_), inline=True,
+           ensures={'what the constructor collected': lambda self, result: result is self._symbol_usages},
+           raises_only=())
+
+M.contract('exactly_lib.impls.actors.program.executable_object:ProgramToExecute.symbol_usages',
+           params=dict(self=Inst(executable_object.ProgramToExecute, _program=Iface(HasReferencesI))),
+           returns=ListOf(Any_), inline=True,
+           ensures={'the references of the program': lambda self, result: result is self._program.references},
+           raises_only=())
+
+M.contract('exactly_lib.impls.actors.util.actor_from_parts.parts:ActionToCheckFromParts.__init__',
+           params=dict(self=Inst(actor_parts.ActionToCheckFromParts), object_to_execute=Iface(SymbolUserI),
+                       validator_constructor=Any_, executor_constructor=Any_),
+           ensures={'the symbol usages of the action are those of the object to execute': lambda self, trace:
+                    len([e for e in trace if e[0] == 'object-to-execute.symbol_usages']) == 1
+                    and self._ActionToCheckFromParts__symbol_usages
+                    is [e for e in trace if e[0] == 'object-to-execute.symbol_usages:returned'][0][2]},
+           raises_only=())
+
+M.contract('exactly_lib.impls.actors.util.actor_from_parts.parts:ActionToCheckFromParts.symbol_usages',
+           params=dict(self=Inst(actor_parts.ActionToCheckFromParts, object_to_execute=Any_, validator_constructor=Any_,
+                                 executor_constructor=Any_, _ActionToCheckFromParts__validator=Any_,
+                                 _ActionToCheckFromParts__executor=Any_,
+                                 _ActionToCheckFromParts__symbol_usages=ListOf(Any_))),
+           returns=ListOf(Any_), inline=True,
+           ensures={'what the constructor collected': lambda self, result:
+                    result is self._ActionToCheckFromParts__symbol_usages},
            raises_only=())
 
 
